@@ -117,3 +117,24 @@ Definition abs_reg (k : hook) : option nat :=
   else None.
 Definition abs_hook (k : hook) : ahook := mkA (k_cfg k) (k_alive k) (k_te k) (k_ee k) (abs_reg k).
 Definition abs (w : world) : aworld := mkAW (map abs_hook (w_hooks w)) (map m_training (w_mods w)).
+
+(* which user-visible callable a dispatch runs: 2 = StateHook.hook, else 0 = prehook, 1 = posthook *)
+Definition a_tag (a : aworld) (h : nat) (pre : bool) : nat :=
+  match nth_error (a_hooks a) h with
+  | Some k => match c_kind (a_cfg k) with KState => 2 | _ => if pre then 0 else 1 end
+  | None => 0
+  end.
+
+(* number of hook objects the abstract machine sees registered on module m in position pre/post:
+   the expected len(module._forward_pre_hooks) / len(module._forward_hooks) *)
+Definition a_on (m : nat) (q : bool) (k : ahook) : bool := a_alive k && reg_on k m && c_has (a_cfg k) q.
+Definition a_count (a : aworld) (m : nat) (q : bool) : nat := length (filter (a_on m q) (a_hooks a)).
+
+(* hook h is not registered (or no longer exists) *)
+Definition a_unreg (a : aworld) (h : nat) : Prop :=
+  match nth_error (a_hooks a) h with
+  | Some k => a_alive k = false \/ a_reg k = None
+  | None => True
+  end.
+Definition not_register_of (h : nat) (o : op) : bool :=
+  match o with ORegister h' _ => negb (h' =? h) | _ => true end.
